@@ -15,6 +15,7 @@ right-most scans, header canonicalisation, `omit` on a nil header value) is insi
 Nothing in this file looks inside them, so every theorem holds for every such triple.
 -/
 import CaddyModel.C10.Glue
+import CaddyModel.Gen.Forwarding
 
 namespace CaddyModel.C10
 
@@ -49,18 +50,12 @@ def sHttp : Bytes := [104, 116, 116, 112]
 def sHttps : Bytes := [104, 116, 116, 112, 115]
 def commaSpace : Bytes := [44, 32]
 
-/-- reverseproxy.go `hopHeaders` -/
-def hopHeaders : List Bytes :=
-  [[65, 108, 116, 45, 83, 118, 99],                                                   -- Alt-Svc
-   kConnection,
-   [80, 114, 111, 120, 121, 45, 67, 111, 110, 110, 101, 99, 116, 105, 111, 110],      -- Proxy-Connection
-   [75, 101, 101, 112, 45, 65, 108, 105, 118, 101],                                   -- Keep-Alive
-   [80, 114, 111, 120, 121, 45, 65, 117, 116, 104, 101, 110, 116, 105, 99, 97, 116, 101],         -- Proxy-Authenticate
-   [80, 114, 111, 120, 121, 45, 65, 117, 116, 104, 111, 114, 105, 122, 97, 116, 105, 111, 110],   -- Proxy-Authorization
-   [84, 101],                                                                          -- Te
-   [84, 114, 97, 105, 108, 101, 114],                                                  -- Trailer
-   [84, 114, 97, 110, 115, 102, 101, 114, 45, 69, 110, 99, 111, 100, 105, 110, 103],   -- Transfer-Encoding
-   [85, 112, 103, 114, 97, 100, 101]]                                                  -- Upgrade
+/-- reverseproxy.go `hopHeaders` — REGENERATED from the source on every run (tools/extract →
+    Gen/Forwarding.lean): Alt-Svc, Connection, Proxy-Connection, Keep-Alive, Proxy-Authenticate,
+    Proxy-Authorization, Te, Trailer, Transfer-Encoding, Upgrade on the pinned tree.  The lemmas
+    `hop_not_kXFF/kXFP/kXFH` (no forwarding field is hop-by-hop) are re-proved against whatever the
+    source lists. -/
+def hopHeaders : List Bytes := Gen.hopHeaders
 
 section
 variable {Addr Prefix : Type}
@@ -125,7 +120,7 @@ def strictUntrustedClientIp (N : Net Addr Prefix) (h : Header) (trusted : List P
 def effectiveHeaders (cfg : Cfg Prefix) : List Bytes :=
   match cfg.clientIPHeaders with
   | some l => l
-  | none => [kXFF]
+  | none => Gen.defaultClientIPHeaders     -- regenerated from app.go (X-Forwarded-For on the pinned tree)
 
 /-- the remote IP both functions derive from `r.RemoteAddr`:
     `SplitHostPort`, cut the zone; `none` = SplitHostPort failed -/
